@@ -5,6 +5,7 @@ PROP_MODULES = {
     'C04': ['contracts.builders', 'contracts.shared_grid', 'contracts.c03_grid', 'contracts.c04_meta', 'contracts.c08_creator'],
     'C02': ['contracts.builders', 'contracts.shared_grid', 'contracts.c03_grid', 'contracts.c04_meta', 'contracts.c16_limits', 'contracts.c02_addresses'],
     'C20': ['contracts.builders', 'contracts.shared_grid', 'contracts.c03_grid', 'contracts.c04_meta', 'contracts.c08_creator', 'contracts.c13_expiry', 'contracts.c16_limits', 'contracts.c20_conditional'],
+    'C17': ['contracts.builders', 'contracts.shared_grid', 'contracts.c03_grid', 'contracts.c17_upstream'],
     'C16': ['contracts.builders', 'contracts.shared_grid', 'contracts.c03_grid', 'contracts.c04_meta', 'contracts.c16_limits'],
     'C13': ['contracts.builders', 'contracts.shared_grid', 'contracts.c03_grid', 'contracts.c04_meta', 'contracts.c08_creator', 'contracts.c13_expiry'],
     'C08': ['contracts.builders', 'contracts.shared_grid', 'contracts.c03_grid', 'contracts.c04_meta', 'contracts.c08_creator'],
@@ -32,6 +33,15 @@ NOT_APPLICABLE = {
 }
 
 MANIFEST_META = {
+    'C17': dict(
+        text='Proof of call-site preconditions on the real WMSSource code (all paths, all inputs): at every '
+             'client.retrieve(q, fmt) the format is in supported_formats and the SRS in supported_srs whenever those lists '
+             'are configured, and the bbox either passed extent.contains or is the request clipped to the extent by '
+             'bbox_position_in_image (whose clipping arithmetic is proved); no upstream request is made unless the '
+             'source\'s own coverage.intersects(query.bbox, query.srs) and res_range.contains(...) agreed.',
+        note='SRS equality is treated as identity of opaque objects; URL assembly, reprojected bbox accuracy, '
+             '_get_transformed, best_srs/preferred_src, _query_req parameter filtering and TiledSource are not yet under '
+             'contract; opaque-callee assumption'),
     'C20': dict(
         text='Proof on the real code: Response.make_conditional answers 304 (no body, no Content-type) when If-None-Match '
              'equals the current ETag, and sets 304 ONLY if the ETag matches or Last-Modified <= a well-formed '
